@@ -928,13 +928,23 @@ def load_plugins() -> list[str]:
         return problems
     load_plugins.done = True
     me = sys.modules[__name__]
+    late = []
     for fn in sorted(os.listdir(HERE)):
         if fn.startswith("pytr_") and fn.endswith(".py"):
             try:
                 mod = importlib.import_module(fn[:-3])
                 mod.register(me)
+                late.append((fn, mod))
             except Exception as e:  # noqa: BLE001
                 problems.append(f"translator plug-in {fn}: {type(e).__name__}: {e}")
+    # (C11) second pass: a plug-in whose functions call translated functions of plug-ins that sort after it appends its
+    # SPECS in `register_late` (translation order = dependency order)
+    for fn, mod in late:
+        if hasattr(mod, "register_late"):
+            try:
+                mod.register_late(me)
+            except Exception as e:  # noqa: BLE001
+                problems.append(f"translator plug-in {fn} (late): {type(e).__name__}: {e}")
     return problems
 
 
